@@ -174,7 +174,8 @@ def mk_groups(groups):
         cls = LabelMergeGroup if g["merge"] else LabelGroup
         lst = list(g["labels"])
         mine.append(lst)
-        d[g["name"]] = cls(lst, single_instance=g["single"])
+        # "int_keys": the caller names its groups by integer ids (the library turns every name into a lower-case string)
+        d[int(g["name"]) if groups[0].get("int_keys") else g["name"]] = cls(lst, single_instance=g["single"])
     if groups and groups[0].get("as_list"):
         # groups given as a list: the library names them group_0, group_1, ... (the spec carries exactly these names)
         assert [g["name"] for g in groups] == [f"group_{k}" for k in range(len(groups))]
